@@ -15,7 +15,21 @@
    Oracles are universally quantified function arguments with explicit hypotheses (hash function verdicts
    hok, CBOR header decoder hdrdec). *)
 From GoCar Require Import Bytes Varint Cid Header Frame V2Header Scan Index Store Wf.
-From GoCarProofs Require Import CidFacts HeaderFacts ScanFacts FinalStore FinalWide FinalMain FinalExamples.
+From Coq Require Import Sorting.Permutation.
+From GoCar Require Import Transform Deferred.
+From GoCar Require Traversal.
+From GoCarProofs Require TraversalV2.
+From GoCarProofs Require Import CidFacts HeaderFacts ScanFacts FinalStore FinalWf FinalWide FinalMain FinalProducers FinalExamples.
+From GoCarProofs Require TransformWrap.
+
+(* util.LdWrite writes the section length into an 8-byte varint buffer and panics for sections of 2^56 bytes
+   or more; the model does not reproduce the panic.  The theorems about sessions therefore take the executable
+   guard [history_ok h = true] (every offered block: |cid| + |data| < 2^56).  Every block a Go program can hold
+   meets it: *)
+Theorem C05_ldwrite_guard_realistic :
+  forall b : block, blen (fst b) <= 2 ^ 25 -> blen (snd b) <= 2 ^ 50 -> ld_write_ok b = true.
+Proof. exact ld_write_ok_realistic. Qed.
+Print Assumptions C05_ldwrite_guard_realistic.
 
 (* The file after Finalize, byte for byte, for every front-end, option row and put history (including none):
    pragma, the 40-byte header with data offset 51 + data padding, data size = payload length, index
@@ -29,7 +43,7 @@ Theorem C05_layout :
   let payload := ld (enc_header ro 1) ++ enc_sections stored in
   51 + w_dpad o + w_ipad o < two64 ->
   (k = KStorage false -> w_v1 o = true) ->
-  Forall (Forall (fun b : block => blen (fst b) + blen (snd b) < 2 ^ 56)) h ->
+  history_ok h = true ->
   51 + w_dpad o + blen payload + w_ipad o < two64 ->
   (w_v1 o = false ->
    ii_flatten (w_codec o) (ii_load (records_from (ld_size (blen (enc_header ro 1))) stored) []) = Some fi) ->
@@ -41,7 +55,7 @@ Theorem C05_layout :
            enc_v2hdr (mkv2 (if w_storeid o then 128 else 0) 0 (51 + w_dpad o) (blen payload)
                            (51 + w_dpad o + blen payload + w_ipad o)) ++
            zerosN (w_dpad o) ++ payload ++ zerosN (w_ipad o) ++ idx_write fi.
-Proof. exact c05_layout. Qed.
+Proof. exact c05_layout_guarded. Qed.
 Print Assumptions C05_layout.
 
 (* what the code rejects: an index codec it does not know -- Finalize errors, the header stays zeroed *)
@@ -80,12 +94,12 @@ Theorem C05_wf :
   session k o nilroots roots h = Ok (s, outs, ONil) ->
   51 + w_dpad o + w_ipad o < two64 -> w_ipad o < two63 ->
   roots_ok roots ->
-  Forall (Forall (fun b : block => blen (fst b) + blen (snd b) < 2 ^ 56)) h ->
+  history_ok h = true ->
   blen (ws_file s) < two63 ->
   (w_v1 o = false -> w_codec o = codec_mh_sorted ->
    N.of_nat (length (group_by r_code (ii_load (records_from (ld_size (blen (enc_header ro 1))) stored) []))) < two31) ->
   wf_parse o (ws_file s) = Some (roots, stored) /\ wf_car o (ws_file s) = true.
-Proof. exact c05_wf_applied. Qed.
+Proof. exact c05_wf_guarded. Qed.
 Print Assumptions C05_wf.
 
 (* ... because a CID whose digest does not fit an index record (32 MiB wide: digest + 8-byte offset) is never
@@ -115,14 +129,14 @@ Theorem C05_inspect_accepts :
   let ro := roots_opt nilroots roots in
   session k o nilroots roots h = Ok (s, outs, ONil) ->
   51 + w_dpad o + w_ipad o < two64 -> w_ipad o < two63 ->
-  Forall (Forall (fun b : block => blen (fst b) + blen (snd b) < 2 ^ 56)) h ->
+  history_ok h = true ->
   blen (ws_file s) < two63 ->
   hdrdec pragma_body = Some ([], 2) -> hdrdec (enc_header ro 1) = Some (roots, 1) ->
   blen (enc_header ro 1) <= o_maxh r ->
   Forall (Forall (fun b : block => blen (fst b) + blen (snd b) <= o_maxs r)) h ->
   (validate = true -> Forall (Forall (hash_good hok)) h) ->
   inspect_check hok hdrdec r validate (ws_file s) = Ok tt.
-Proof. exact c05_inspect_accepts_applied. Qed.
+Proof. exact c05_inspect_accepts_guarded. Qed.
 Print Assumptions C05_inspect_accepts.
 
 (* The verifier accepts it whenever every root is among the stored blocks -- and there is a root: *)
@@ -134,7 +148,7 @@ Theorem C05_verify_accepts_partial :
   let stored := spec_stored k o ro h in
   session k o nilroots roots h = Ok (s, outs, ONil) ->
   51 + w_dpad o + w_ipad o < two64 -> w_ipad o < two63 ->
-  Forall (Forall (fun b : block => blen (fst b) + blen (snd b) < 2 ^ 56)) h ->
+  history_ok h = true ->
   blen (ws_file s) < two63 ->
   (w_v1 o = false -> w_codec o = codec_mh_sorted ->
    N.of_nat (length (group_by r_code (ii_load (records_from (ld_size (blen (enc_header ro 1))) stored) []))) < two31) ->
@@ -145,7 +159,7 @@ Theorem C05_verify_accepts_partial :
   incl roots (map fst stored) ->
   roots <> [] ->
   verify_check hok hdrdec (ws_file s) = Ok tt.
-Proof. exact c05_verify_accepts_partial_applied. Qed.
+Proof. exact c05_verify_accepts_partial_guarded. Qed.
 Print Assumptions C05_verify_accepts_partial.
 
 (* ... the guard [roots <> []] cannot be dropped: VerifyCar refuses every archive without roots
@@ -168,3 +182,98 @@ Theorem C05_verify_accepts_refuted :
     verify_check ex_hok dec_header_canon (ws_file s) = Err EOther.
 Proof. exact verify_no_roots_refuted. Qed.
 Print Assumptions C05_verify_accepts_refuted.
+
+(* ... and that is the whole of the finding: for EVERY finalized archive without roots the file is well-formed
+   with exactly the stored blocks, Inspect accepts it, and the verifier's verdict is the root test it makes right
+   after reading the header -- no other clause fails behind it. *)
+Theorem C05_no_roots_exact :
+  forall (hok : bytes -> bytes -> option bool) (hdrdec : bytes -> option (list bytes * N))
+         (k : skind) (o0 : wopts) (nilroots : bool) (h : list batch) s outs,
+  let o := apply_wopts o0 in
+  let ro := roots_opt nilroots [] in
+  let stored := spec_stored k o ro h in
+  session k o nilroots [] h = Ok (s, outs, ONil) ->
+  51 + w_dpad o + w_ipad o < two64 -> w_ipad o < two63 ->
+  history_ok h = true ->
+  blen (ws_file s) < two63 ->
+  (w_v1 o = false -> w_codec o = codec_mh_sorted ->
+   N.of_nat (length (group_by r_code (ii_load (records_from (ld_size (blen (enc_header ro 1))) stored) []))) < two31) ->
+  hdrdec pragma_body = Some ([], 2) -> hdrdec (enc_header ro 1) = Some ([], 1) ->
+  Forall (Forall (fun b : block => blen (fst b) + blen (snd b) <= o_maxs default_ropts)) h ->
+  Forall (Forall (hash_good hok)) h ->
+  wf_parse o (ws_file s) = Some ([], stored) /\
+  inspect_check hok hdrdec default_ropts true (ws_file s) = Ok tt /\
+  verify_check hok hdrdec (ws_file s) = Err EOther.
+Proof. exact c05_no_roots_exact. Qed.
+Print Assumptions C05_no_roots_exact.
+
+(* ---- the other producers of a finished archive ------------------------------------------------------------------
+   [wf_finished exactflag o file] is wf_parse with the flag clause as a parameter: store.Finalize sets the
+   fully-indexed bit iff StoreIdentityCIDs (exactflag = true, wf_parse); WrapV1 and the traversal writers never set
+   it, for them the bit must only not lie (exactflag = false). *)
+
+(* storage/deferred: once a writer exists and the history closed, the bytes at the target are those of a storage
+   session fed the same puts (model: Deferred.v, C20), hence well-formed whenever the Finalize inside Close succeeded *)
+Theorem C05_deferred_is_session :
+  forall (c : dcfg) (ops : list dop) (s : wstate),
+  dc_faults c = [] -> d_inner (d_run c d_init ops) = Some s -> existsb is_close ops = true ->
+  exists s2 outs fo,
+    session (dc_kind c) (eff_opts c) (dc_nilroots c) (dc_roots c) [d_puts ops] = Ok (s2, outs, fo) /\
+    d_bytes c (d_run c d_init ops) = ws_file s2.
+Proof. exact deferred_is_session. Qed.
+Print Assumptions C05_deferred_is_session.
+
+Theorem C05_deferred_output_wf :
+  forall (c : dcfg) (ops : list dop) (s : wstate),
+  let o := eff_opts c in
+  let ro := roots_opt (dc_nilroots c) (dc_roots c) in
+  let stored := spec_stored (dc_kind c) o ro [d_puts ops] in
+  let file := d_bytes c (d_run c d_init ops) in
+  dc_faults c = [] -> d_inner (d_run c d_init ops) = Some s -> existsb is_close ops = true ->
+  exists s2 outs fo,
+    session (dc_kind c) o (dc_nilroots c) (dc_roots c) [d_puts ops] = Ok (s2, outs, fo) /\ file = ws_file s2 /\
+    (fo = ONil ->
+     51 + w_dpad o + w_ipad o < two64 -> w_ipad o < two63 -> w_maxcid o + 8 <= max_width ->
+     roots_ok (dc_roots c) -> history_ok [d_puts ops] = true -> blen file < two63 ->
+     (w_v1 o = false -> w_codec o = codec_mh_sorted ->
+      N.of_nat (length (group_by r_code (ii_load (records_from (ld_size (blen (enc_header ro 1))) stored) []))) < two31) ->
+     wf_parse o file = Some (dc_roots c, stored)).
+Proof. exact deferred_output_wf. Qed.
+Print Assumptions C05_deferred_output_wf.
+
+(* WrapV1 / WrapV1File (model: Transform.v, C10): the CARv2 it writes around a valid CARv1 is well-formed -- header
+   arithmetic without padding, the payload verbatim, an index that resolves exactly the non-identity sections (all
+   with StoreIdentityCIDs), bit not set *)
+Theorem C05_wrap_output_wf :
+  forall (hdrdec : bytes -> option (list bytes * N)) (xo : xopts) (roots : list bytes) (bs : list block)
+         (i0 : index) (w : bytes),
+  TransformWrap.wrap_ok hdrdec xo roots bs -> idx_new (x_codec xo) = Some i0 -> roots_ok roots ->
+  Forall (fun b : block => blen (fst b) + blen (snd b) < two56) bs ->
+  wrap_bytes hdrdec xo (enc_payload roots bs) = Ok w -> blen w < two63 ->
+  (x_codec xo = codec_mh_sorted ->
+   N.of_nat (length (group_by r_code (spec_records (x_storeid xo) (hdr_len (Some roots)) bs))) < two31) ->
+  wf_finished false (wopts_of_x xo) w = Some (roots, bs).
+Proof. exact wrap_output_wf. Qed.
+Print Assumptions C05_wrap_output_wf.
+
+(* TraverseToFile (and NewSelectiveWriter.WriteTo, which emits the same bytes; model: Traversal.v, C15): the index is
+   built from a Go map whose iteration order [order] is any permutation and holds every section written, identity
+   CIDs included; the bit is not set.  The traversal writers apply no MaxIndexCidSize: "every CID fits an index
+   record" is a hypothesis here (notes/design/C05.md, gap). *)
+Theorem C05_traverse_output_wf :
+  forall (order : list (bytes * N) -> list (bytes * N)) (root : bytes) (o : Traversal.topts)
+         (ls : list Traversal.load) (out : bytes),
+  (forall l, Permutation (order l) l) ->
+  let o' := Traversal.apply_opts o in
+  let bs := Traversal.first_occ (Traversal.blocks_of ls) in
+  Forall TraversalV2.load_ok ls ->
+  TraversalV2.no_wrap o' (blen (enc_payload [root] bs)) = true ->
+  Traversal.traverse_to_file order root o (Traversal.mktrace ls true) = (out, None) ->
+  idx_new (Traversal.o_codec o') <> None ->
+  roots_ok [root] -> Forall put_ok bs -> Forall (fun b : block => blen (fst b) + 8 <= max_width) bs ->
+  blen out < two63 ->
+  (Traversal.o_codec o' = codec_mh_sorted ->
+   N.of_nat (length (group_by r_code (map rec_of_sec (secs_of (hdr_len (Some [root])) bs)))) < two31) ->
+  wf_finished false (wopts_of_t o') out = Some ([root], bs).
+Proof. exact traverse_output_wf. Qed.
+Print Assumptions C05_traverse_output_wf.
